@@ -754,6 +754,152 @@ def pname(ph):
     return re.sub(r"(\.i\d*)+$", "", ph.get("name", str(ph["id"])))
 
 
+def iter_eval(prog, f, header, path, names=None):
+    """interpret one iteration (the blocks of `path`, starting at the loop header) from a symbolic state.
+    Returns (V, I, fr, hphis): atoms are ('L', local name, byte, bit), ('E', param, byte, bit) for elements of
+    parameter arrays, ('G', byte mod 8, bit) for elements of a constant global table walked by a pointer,
+    ('P', name, bit) for integer loop-carried values, ('A', k, bit) for integer parameters."""
+    from .mem import AddrMap
+    am = AddrMap(f)
+    if names is None:
+        names = {}
+        for i in f.all_insts():
+            if i["op"] == "alloca":
+                names[i["id"]] = re.sub(r"(\.i\d*)+$", "", i.get("name") or ("#%d" % i["id"]))
+    V = Vars()
+
+    def mem_default(obj, byte, bit):
+        if obj[0] == "al":
+            return V.atom(("L", names.get(obj[2], obj[2]), byte, bit))
+        if obj[0] == "elem":
+            return V.atom(("E", obj[1], byte, bit))
+        if obj[0] == "gelem":
+            return V.atom(("G", byte % 8, bit))
+        return TOP
+    I = Interp(prog, V, mem_default)
+    fr = Frame(f, [("p", ("arg", k), 0) for k in range(len(f.params))], 0)
+    for k, p in enumerate(f.params):
+        if not p["type"].endswith("*"):
+            sh = shape(p["type"])
+            fr.args[k] = ("b", [V.atom(("A", k, b)) for b in range(sh[0] * sh[1])]) if sh else None
+    hphis = [i for i in f.bbmap[header]["insts"] if i["op"] == "phi"]
+    for ph in hphis:
+        sh = shape(ph["type"])
+        if sh:
+            I.phi_vals[ph["id"]] = ("b", [V.atom(("P", pname(ph), b)) for b in range(sh[0] * sh[1])])
+        elif ph["type"].endswith("*"):
+            a = am.of(["i", ph["id"]])
+            if a is not None and a.root[0] == "global":
+                I.phi_vals[ph["id"]] = ("p", ("gelem", a.root[1]), 0)
+            else:
+                I.phi_vals[ph["id"]] = ("p", ("elem", a.root[1] if a is not None and a.root[0] == "arg" else -1), 0)
+    prev = None
+    for b in path:
+        I.run_blocks(fr, [b], prev)
+        prev = b
+    return V, I, fr, hphis, names
+
+
+def mantis_round_inverse(prog, f, loop_paths):
+    """Mantis block functions run forward rounds in one loop and backward rounds in a second one, on the same
+    locals (state, tweak, k1, round-constant cursor).  Decides that one backward round undoes one forward round on
+    (state, tweak): with F: state' = A(S(state)) + B(tweak', key, rc), tweak' = h(tweak) and the backward round
+    feeding v = A'(state) + ... into the (involutive) S-box, v after F must be exactly S(state), and the tweak
+    must come back.  Returns None when it holds, a message when it does not, ('skip', why) when not applicable."""
+    loops = sorted(f.loops().items(), key=lambda kv: f.rpo().index(kv[0]))
+    rounds = []
+    for h, body in loops:
+        ps = [p for (p, kind, tgt) in loop_paths(f, h, body) if kind == "latch"]
+        if len(ps) != 1:
+            continue
+        try:
+            V, I, fr, hphis, names = iter_eval(prog, f, h, ps[0])
+        except NotAffine as e:
+            continue
+        if not I.cuts:
+            continue
+        rounds.append((h, ps[0], V, I, fr, hphis))
+    if len(rounds) != 2:
+        return ("skip", "%d round loops with an S-box cut" % len(rounds))
+
+    def enc(V, form):
+        if form is None:
+            return None
+        return (frozenset(V.names_of(form[0])), form[1])
+
+    def final_state(V, I):
+        out = {}
+        for (obj, byte), cell in I.mem.items():
+            if obj[0] == "al" and obj[1] == 0:
+                for bit, form in enumerate(cell):
+                    out[("L", re.sub(r"(\.i\d*)+$", "", str(I_names.get(obj[2], obj[2]))), byte, bit)] = enc(V, form)
+        return out
+    (h1, p1, V1, I1, fr1, ph1), (h2, p2, V2, I2, fr2, ph2) = rounds
+    I_names = {}
+    for i in f.all_insts():
+        if i["op"] == "alloca":
+            I_names[i["id"]] = i.get("name") or ("#%d" % i["id"])
+    F = final_state(V1, I1)
+    B = final_state(V2, I2)
+    # forward cuts: inputs must be single state locations; name each output atom by that location
+    u_of = {}          # forward cut output atom name -> location it stands for
+    for c in I1.cuts:
+        ins = dict(c["ins"])
+        for (slot, fresh) in c["outs"]:
+            src = ins.get(slot if slot != "ret" else (c["ins"][0][0] if c["ins"] else None))
+            if src is None or len(src) != len(fresh):
+                return ("skip", "forward S-box call shape not recognised")
+            for p, a in enumerate(fresh):
+                e = enc(V1, src[p])
+                if e is None or e[1] != 0 or len(e[0]) != 1 or next(iter(e[0]))[0] != "L":
+                    return ("skip", "forward round does not apply the S-box to the plain state")
+                u_of[V1.names_of(a[0])[0]] = next(iter(e[0]))
+    loc_u = {loc: nm for nm, loc in u_of.items()}
+    # backward cuts: input forms per output atom
+    vin = {}
+    for c in I2.cuts:
+        ins = dict(c["ins"])
+        for (slot, fresh) in c["outs"]:
+            src = ins.get(slot if slot != "ret" else (c["ins"][0][0] if c["ins"] else None))
+            if src is None or len(src) != len(fresh):
+                return ("skip", "backward S-box call shape not recognised")
+            for p, a in enumerate(fresh):
+                vin[V2.names_of(a[0])[0]] = enc(V2, src[p])
+
+    def subst(form):
+        """apply the forward round to the locations a backward form reads"""
+        acc, c = set(), form[1]
+        for nm in form[0]:
+            rep_ = F.get(nm) if nm[0] == "L" else None
+            if rep_ is None:
+                acc ^= {nm}
+            else:
+                acc ^= set(rep_[0])
+                c ^= rep_[1]
+        return frozenset(acc), c
+    nstate = 0
+    for loc, e in sorted(B.items(), key=repr):
+        if e is None:
+            return "backward round: %s is not an affine function" % (loc,)
+        if e[1] == 0 and len(e[0]) == 1 and next(iter(e[0]))[0] == "cut":
+            v = vin.get(next(iter(e[0])))
+            if v is None:
+                return "the S-box input that produces %s in the backward round is not affine" % (loc,)
+            got = subst(v)
+            want = loc_u.get(loc)
+            nstate += 1
+            if want is None or got != (frozenset([want]), 0):
+                return "state byte %d bit %d (`%s`): the backward round feeds %s into the S-box where the forward round's S-box output for that position is expected" % (
+                    loc[2], loc[3], loc[1], sorted(got[0], key=repr)[:4] + (["^1"] if got[1] else []))
+        else:
+            got = subst(e)
+            if got != (frozenset([loc]), 0):
+                return "`%s` byte %d bit %d does not come back after a forward and a backward round (%s)" % (loc[1], loc[2], loc[3], sorted(got[0], key=repr)[:3])
+    if nstate == 0:
+        return ("skip", "no state location receives an S-box output in the backward round")
+    return None
+
+
 def loop_transfer(prog, f, header, body, loop_paths):
     """per acyclic path through one iteration of the loop: {target location: (frozenset of source atoms, const)}
     over byte-addressed locals ('L', name, byte, bit), elements of parameter arrays ('E', param, byte, bit) and the
